@@ -831,7 +831,7 @@ def check_C04(ctx):
     ctx.assumptions = ["non-terminal output: the library assumes height = width", "the pty replay interprets CR LF, ESC[nA and ESC[J only "
                        "(the only controls the library emits); lines never wrap because C07/C09 bound their width"]
     frames_check(ctx, {"OUT_CUU", "CT_FRAME", "OUT_ROWS", "OUT_UNEXPECTED", "CT_DELAYEND", "OUT_TEXT"}, M.c04_monitor, 200, 6000,
-                 CONT_DEPS | {"ContainerFlush.v", "ContainerOut.v", "Term.v", "Props/C04.v"})
+                 CONT_DEPS | {"ContainerFlush.v", "ContainerOut.v", "Term.v", "Vt.v", "VtProofs.v", "GenChecks.v", "gen/GenApi.v", "Props/C04.v"})
     if ctx.harness:
         pty_check(ctx)
 
@@ -844,12 +844,12 @@ def pty_check(ctx):
         if rp.get("family") != "pty":
             return
         sc = write_script(ctx, "replay_pty.txt", rp["case"])
-        runs.append(ctx.run_family("pty", 0, extra=sc, tag=".replay", model=False))
+        runs.append(ctx.run_family("pty", 0, extra=sc, tag=".replay"))
     elif ctx.tier == "quick":
-        runs.append(ctx.run_family("pty", 60, model=False))
+        runs.append(ctx.run_family("pty", 60))
     else:
         for i in range(4):
-            runs.append(ctx.run_family("pty", 400, seed=ctx.seed * 1000 + i, model=False))
+            runs.append(ctx.run_family("pty", 400, seed=ctx.seed * 1000 + i))
     sigs = set()
     for run in runs:
         if run["rc"] != 0:
@@ -870,11 +870,37 @@ def pty_check(ctx):
                 cur["data"] = ast.literal_eval(l[6:])
             elif l.startswith("NOPTY"):
                 ctx.note("no pseudo terminal available: " + l)
+        # the same bytes read by the extracted, proved reader (Vt.lex / Vt.tok_step): lines left on the terminal
+        coq_screen = {}
+        for l in read_lines(os.path.join(run["dir"], "model.txt")):
+            f = l.split(" ", 2)
+            k = int(f[0])
+            coq_screen.setdefault(k, {"lines": [], "status": "ok"})
+            if f[1] in ("L", "B"):
+                coq_screen[k]["lines"].append("".join(chr(int(x)) for x in f[2].split(",")) if len(f) > 2 and f[2] else "")
+            elif f[1] in ("OUTSIDE", "PARTIAL"):
+                coq_screen[k]["status"] = f[1]
         for c in cases:
             if c["data"] is None:
                 continue
             ctx.cov["evaluations"] += 1
             ctx.distinct(("pty",) + tuple(c["hdr"][2:]))
+            k = int(c["hdr"][1])
+            cs = coq_screen.get(k)
+            if cs is not None:
+                ctx.cov["traces_validated_against_impl"] += 1
+                if cs["status"] != "ok" and "pty-bytes-outside-fragment" not in sigs:
+                    sigs.add("pty-bytes-outside-fragment")
+                    ctx.add_violation("the bytes written to the terminal are not whole lines, CSI n A and CSI J only (%s): %r"
+                                      % (cs["status"], c["data"][:300]), "pty-bytes-outside-fragment",
+                                      {"family": "pty", "run_seed": run["seed"], "n": run["n"], "case": [c["line"]]})
+                sc_, win_ = M.pty_replay(c["data"], int(c["hdr"][2]))
+                py = [x for x in sc_ + win_]
+                while py and py[-1] == "":
+                    py.pop()
+                if cs["status"] == "ok" and py != cs["lines"]:
+                    ctx.note("the Python terminal replay and the extracted reader disagree on case %d" % k)
+                    ctx.internal_error = True
             # frame boundaries: after every cursor-up sequence's frame, i.e. before each ESC[ and at the end
             cuts = [m.start() for m in re.finditer("\x1b\\[", c["data"])] + [None]
             mon = M.c04_pty_monitor(c["hdr"], [(o, "frame %d" % i) for i, o in enumerate(cuts)], c["data"])
